@@ -585,6 +585,28 @@ Section Envelope.
     - intros a. cbn [add_balance set_bal suicided has_code]. rewrite X4, Hc2. cbn [set_bal suicided has_code].
       rewrite Hsu. rewrite X3. now rewrite Hc2.
   Qed.
+  (** * Sequences of transactions: the hypotheses are required of each transaction in the state it
+        is applied to. *)
+  Inductive steps_ok (U : list addr) (e : env) : state -> list msg -> Prop :=
+  | steps_nil s : steps_ok U e s []
+  | steps_cons s m rest :
+      wf_msg m -> In (m_from m) U -> H_gas e s m -> H_sum U e s m ->
+      (forall r, fst (handle_eip155 clean run e s m) = OOk r ->
+                 steps_ok U e (snd (handle_eip155 clean run e s m)) rest) ->
+      steps_ok U e s (m :: rest).
+
+  Theorem sequence_conserved U e (s : state) ms :
+    NoDup U -> In (gas_receiver e) U ->
+    chain_id e <> EIP155_CHAINID_MAINNET -> height e <> REFUND_HEIGHT ->
+    steps_ok U e s ms -> total U (apply_all clean run e s ms) = total U s.
+  Proof.
+    intros Hnd Hr Hc Hh Hok. induction Hok as [s|s m rest Hwf Hf Hg Hs Hnext IH]; [reflexivity|].
+    cbn [apply_all].
+    pose proof (ong_conserved U e s m Hwf Hnd Hf Hr Hc Hh Hg Hs) as Hone.
+    destruct (handle_eip155 clean run e s m) as [o s'] eqn:E. cbn [snd fst] in *.
+    destruct o as [err| |r]; try exact Hone.
+    rewrite (IH r eq_refl). exact Hone.
+  Qed.
 End Envelope.
 
 (** * SELFDESTRUCT as the state calls of opSuicide (AddBalance to the beneficiary, then
